@@ -336,6 +336,8 @@ func init() {
 		"github.com/grailbio/bigslice/internal/zero.Unsafe": intZeroUnsafe,
 		"github.com/spaolacci/murmur3.Sum32WithSeed":        intMurmur,
 		"github.com/spaolacci/murmur3.Sum32":                func(fr *frame, a []value) value { return intMurmur(fr, []value{a[0], uint32(0)}) },
+		"(*golang.org/x/sync/errgroup.Group).Go":   intErrgroupGo,
+		"(*golang.org/x/sync/errgroup.Group).Wait": intErrgroupWait,
 		"runtime.Caller": func(fr *frame, a []value) value { return tuple{uintptr(0), "verif.go", 1, true} },
 		"runtime.Callers": func(fr *frame, a []value) value {
 			pc := a[1].([]value)
@@ -576,7 +578,11 @@ func (i *interpreter) atomicPointerMethod(fr *frame, fn *ssa.Function, args []va
 		// stored as unsafe.Pointer in the real type; we store the typed pointer
 		return v
 	}
-	switch fn.Name() {
+	mname := fn.Name()
+	if k := strings.Index(mname, "["); k >= 0 {
+		mname = mname[:k]
+	}
+	switch mname {
 	case "Load":
 		if u, ok := (*cell).(uptr); ok {
 			if u.isNil() {
@@ -983,4 +989,25 @@ func intMurmur(fr *frame, a []value) value {
 	}
 	px.stubsUsed["murmur3.Sum32WithSeed => uninterpreted function of (bytes, seed)"] = true
 	return px.mk(kBV, 32, "("+name+" "+strings.Join(args, " ")+")")
+}
+
+// errgroup, sequentially: Go runs the function at once and remembers the
+// first error; Wait returns it.
+func intErrgroupGo(fr *frame, a []value) value {
+	k := lockKey(a[0])
+	r := call(fr.i, fr, token.NoPos, a[1], nil)
+	if e, ok := r.(iface); ok && e.t != nil {
+		if _, seen := fr.i.egErrs[k]; !seen {
+			fr.i.egErrs[k] = e
+		}
+	}
+	return nil
+}
+
+func intErrgroupWait(fr *frame, a []value) value {
+	k := lockKey(a[0])
+	if e, ok := fr.i.egErrs[k]; ok {
+		return e
+	}
+	return iface{}
 }
